@@ -208,7 +208,7 @@ def argv_stream(ctx, res):
             want = "error" if must_refuse else ("help" if kn == "help" else "ok")
             if want in ("error", "help") and after != before:
                 res.violate("argv_model", "a command line that is refused (or only asks for help) created or modified a file", case,
-                            {"changed": sorted(k for k in set(before) | set(after) if before.get(k) != after.get(k))[:6]}, {"clause": "refused_no_effect"})
+                            {"changed": sorted(k for k in set(before) | set(after) if ((k in before) != (k in after) or before.get(k) != after.get(k)))[:6]}, {"clause": "refused_no_effect"})
             if want == "error" and status in ("ok0", "exit0"):
                 res.violate("argv_model", "an argument error is accepted with status 0", case, {"status": status, "out": out[:200]}, {"clause": "argument_error_status"})
         st.see((tool, "run", len(runs)), nontrivial=True)
